@@ -376,16 +376,21 @@ MatchErrs(how, rok, real, model) ==
 MatchObs(how, real, model) ==
   LET n == CASE how = "none" -> 0 [] how = "ext" -> 2 [] how = "insp" -> 3 [] how = "all" -> 4 IN
   n = 0 \/ (Len(real) = Len(model) /\ \A i \in DOMAIN real : \A k \in 1..n : real[i][k] = model[i][k])
-Matches ==
-  LET r == Rec[cid] m == r.mask IN
+MatchesMask(m) ==
+  LET r == Rec[cid] IN
   /\ r.res.panic = result.panic
   /\ r.res.ok = result.ok
   /\ (m.out /\ result.ok /\ TopMode = "E") => r.res.out = result.out
   /\ MatchErrs(m.errs, result.ok, r.res.errs, result.errs)
   /\ MatchObs(m.obs, r.obs, obs)
   /\ (m.insp /\ result.ok) => r.res.insp = result.insp
+Matches == MatchesMask(Rec[cid].mask)
+FullMask == [out |-> TRUE, errs |-> "all", obs |-> "all", insp |-> TRUE]
+(* the verdict carries both the match on the fields the property pins and the match on the    *)
+(* full observation (the driver uses the latter to attribute a failed real-only assertion to  *)
+(* a known defect branch)                                                                     *)
 Verdict ==
-  st.done => /\ PrintT(<<"VERDICT", cid, {s \in DOMAIN kf : kf[s] = "on" /\ ~IsOpen(s)}, Matches>>)
+  st.done => /\ PrintT(<<"VERDICT", cid, {s \in DOMAIN kf : kf[s] = "on" /\ ~IsOpen(s)}, Matches, MatchesMask(FullMask)>>)
              /\ (Matches \/ PrintT("MODEL " \o ToJson(ReplayRec)))
 
 (* compact error traces *)
